@@ -136,6 +136,43 @@ fn main() {
     }
     std::fs::write(Path::new(&out_dir).join("login_dispatch.rs"), out).unwrap();
 
+    // login: protocol-parameterised expect helpers, for the version 8 types that implement CollectiveMessage
+    let mut out = String::new();
+    {
+        let v = "version_8";
+        let p = format!("{}/wow_login_messages/src/logon/{}/opcodes.rs", repo, v);
+        let src = std::fs::read_to_string(&p).unwrap();
+        let coll_dir = format!("{}/wow_login_messages/src/collective", repo);
+        println!("cargo:rerun-if-changed={}", coll_dir);
+        for (dir, opty) in [("client", "ClientOpcodeMessage"), ("server", "ServerOpcodeMessage")] {
+            let start = src.find(&format!("pub enum {} {{", opty)).expect("enum");
+            let body = &src[start..];
+            let end = body.find("\n}").unwrap();
+            let mut types: Vec<String> = Vec::new();
+            for l in body[..end].lines().skip(1) {
+                let l = l.trim().trim_end_matches(',');
+                if l.is_empty() {
+                    continue;
+                }
+                let ty = match l.split_once('(') {
+                    Some((_, b)) => b.trim_end_matches(')').to_string(),
+                    None => l.to_string(),
+                };
+                if Path::new(&format!("{}/{}.rs", coll_dir, ty.to_lowercase())).exists() {
+                    types.push(ty);
+                }
+            }
+            let all_dir = format!("{}/wow_login_messages/src/logon/all", repo);
+            writeln!(out, "pub fn login_expect_protocol_{dir}(name: &str, pv: wow_login_messages::all::ProtocolVersion, fl: Flavour, rd: &mut SimReader<'_>, budget: u64) -> Option<LoginOut> {{\n    match name {{").unwrap();
+            for ty in &types {
+                let path = if Path::new(&format!("{}/{}.rs", all_dir, ty.to_lowercase())).exists() { format!("wow_login_messages::all::{}", ty) } else { format!("wow_login_messages::{}::{}", v, ty) };
+                writeln!(out, "        \"{ty}\" => Some(login_expect_protocol_one!({path}, {dir}, pv, fl, rd, budget, |m| login_finish_{v}_{dir}(wow_login_messages::{v}::opcodes::{opty}::from(m)))),").unwrap();
+            }
+            writeln!(out, "        _ => None,\n    }}\n}}").unwrap();
+        }
+    }
+    std::fs::write(Path::new(&out_dir).join("login_protocol_dispatch.rs"), out).unwrap();
+
     // update mask accessors: scan function signatures of the generated impls.rs
     let mut out = String::new();
     let kinds = ["Item", "Container", "Unit", "Player", "GameObject", "DynamicObject", "Corpse"];
